@@ -48,7 +48,7 @@ RetOK(r) ==
   /\ r.shape = (IF n = 1 THEN "single" ELSE "list")
   /\ \A k \in 1..n :
        LET rk == r.sig.results[k] IN
-       IF rk \in NumKinds \/ rk = "iface" THEN r.ret[k].t = "number" /\ r.ret[k].v = r.outs[k]
+       IF rk \in NumKinds \/ rk \in NamedNumKinds \/ rk = "iface" THEN r.ret[k].t = "number" /\ r.ret[k].v = r.outs[k]
        ELSE IF rk = "string" THEN r.ret[k].t = "string"
        ELSE IF rk = "bool" THEN r.ret[k].t = "bool"
        ELSE IF rk = "list" THEN r.ret[k].t = "list"
